@@ -396,6 +396,9 @@ func (a *Array) Hash() string {
 
 // IsCompatible returns true if val is compatible with p.
 func (a *Array) IsCompatible(val any) bool {
+	if val == nil {
+		return false
+	}
 	k := reflect.TypeOf(val).Kind()
 	if k != reflect.Array && k != reflect.Slice {
 		return false
@@ -526,6 +529,9 @@ func (o *Object) Merge(other *Object) *Object {
 
 // IsCompatible returns true if o describes the (Go) type of val.
 func (*Object) IsCompatible(val any) bool {
+	if val == nil {
+		return false
+	}
 	k := reflect.TypeOf(val).Kind()
 	return k == reflect.Map || k == reflect.Struct
 }
@@ -554,6 +560,9 @@ func (m *Map) Hash() string {
 
 // IsCompatible returns true if o describes the (Go) type of val.
 func (m *Map) IsCompatible(val any) bool {
+	if val == nil {
+		return false
+	}
 	k := reflect.TypeOf(val).Kind()
 	if k != reflect.Map {
 		return false
